@@ -77,6 +77,18 @@ func PartialScope() map[string]cty.Value {
 	return sc
 }
 
+// RefinedScope: the marked primitives are UNKNOWN values whose refinements carry the secret
+// content (a string prefix, numeric bounds), as results computed from marked and unknown
+// operands are (e.g. the template "${secret}-${id}" with an unknown id).
+func RefinedScope() map[string]cty.Value {
+	sc := CanaryScope(false)
+	sc["s"] = m(cty.UnknownVal(cty.String).Refine().NotNull().StringPrefix("K3Q9ZX7A-").NewValue())
+	sc["sn"] = m(cty.UnknownVal(cty.String).Refine().NotNull().StringPrefix("77712345").NewValue())
+	sc["n1"] = m(cty.UnknownVal(cty.Number).Refine().NotNull().NumberRangeLowerBound(cty.NumberIntVal(48213), true).NumberRangeUpperBound(cty.NumberIntVal(48214), true).NewValue())
+	sc["n2"] = m(cty.UnknownVal(cty.Number).Refine().NotNull().NumberRangeLowerBound(cty.NumberIntVal(73901), true).NewValue())
+	return sc
+}
+
 func leak(text string) string {
 	for _, cn := range Canaries {
 		if strings.Contains(text, cn) {
@@ -129,11 +141,14 @@ func Handle(c *core.Check, st core.State) {
 	files := map[string]*hcl.File{"e.hcl": {Bytes: []byte(src)}}
 	funcs := e1.Functions()
 	sawDiag := false
-	for variant := 0; variant < 3; variant++ {
+	for variant := 0; variant < 4; variant++ {
 		nested := variant == 1
 		scope := CanaryScope(nested)
 		if variant == 2 {
 			scope = PartialScope()
+		}
+		if variant == 3 {
+			scope = RefinedScope()
 		}
 		var ds hcl.Diagnostics
 		c.Count("evaluations", 1)
@@ -239,10 +254,13 @@ func HandleBodies(c *core.Check, st core.State) {
 			continue
 		}
 		files := map[string]*hcl.File{"b.hcl": f}
-		for variant := 0; variant < 3; variant++ {
+		for variant := 0; variant < 4; variant++ {
 			scope := CanaryScope(variant == 1)
 			if variant == 2 {
 				scope = PartialScope()
+			}
+			if variant == 3 {
+				scope = RefinedScope()
 			}
 			ctx := &hcl.EvalContext{Variables: scope, Functions: funcs}
 			var ds hcl.Diagnostics
